@@ -9,6 +9,11 @@ TEXT = {
   technique='fault enumeration over generated (old,new) GPT pairs: the WriteAt/Sync log of Table.Write is replayed into every crash state (epoch prefix x sector-subset family, exhaustive 2^n for n<=12) and partition.Read must return exactly old or exactly new',
   level_text='For each generated pair every crash state of the stated family is enumerated and checked; pairs themselves are sampled by rapid. Fault enumeration: complete inside the family per pair, not over all pairs.',
   level_note='Crash model = per-logical-sector persistence inside one sync epoch, strict ordering across Sync(); the device records Sync() via the same type assertion the library uses for *os.File.'),
+ 'C13': dict(
+  design_ref='DESIGN.md §4 C13',
+  technique='property-based testing: generated GPT/MBR geometries (near start, straddling and beyond 4 GiB on a sparse device, physical != logical sectors) x readers of shorter/equal/longer length delivering odd pieces, (0,nil) and (n,EOF); oracle = device write log range check + byte comparison + error-type rules; thorough streams a >4 GiB partition against a synthetic verifying pattern region',
+  level_text='Generated search over geometry x reader behaviour with an explicit containment and content oracle on the instrumented device. Exploration (sampled).',
+  level_note='Trusts the harness device (range guard, hashes) and the stated success rule (success iff exactly size bytes supplied).'),
  'C15': dict(
   design_ref='DESIGN.md §4 C15',
   technique='fault enumeration: every GPT header field x boundary values x CRC recomputed/stale x primary/backup/both, 2-field size combinations, entry and MBR-slot corruptions, truncations, plus random images; oracle = no panic, watchdog, heap-allocation bound, returned tables only from CRC-valid data (independent parser); thorough adds a native go fuzz campaign',
